@@ -2,7 +2,7 @@
 effects on user values, exception transparency, scope hygiene, declaration order, target-shape totality, closure cells."""
 import ast
 
-from ..astq import parse_fixture, returns_of
+from ..astq import is_name as is_name_, parse_fixture, returns_of
 from ..core import AnalysisError, norm, walk_local
 from ..xform import query as Q
 from ..xform.terms import (ASDL, EVAL_ORDER, Copy, GenericVisit, Gensym, Ident, In, InList, Lib, Node, Opaque, Raise, Rec, Star, SymStr,
@@ -85,6 +85,7 @@ def run(repo, chk):
     chk.rule("R01.7", "target-shape totality: every grammar-legal target kind of every binding context ends in a template, not in NotImplementedError or in a node shape compile() rejects", 4)
     chk.rule("R01.9", "no local is mistaken for an external: every construct that binds a name in the function scope is known to the collector (recorded as assigned, or as the name of a nested definition), otherwise reading the name makes the prologue fetch it from the globals at entry and the call fails", 15)
     chk.rule("R01.10", "an exception of the user's function is never swallowed by the machinery around it: no __exit__ of a ptera context manager returns a value (a truthy result would suppress the exception in flight)", 3)
+    chk.rule("R01.11", "instrumenting leaves the module's globals as it found them: the binding of the function's own name, which exec() rebinds while the instrumented copy is built, is restored -- and removed again when there was none (methods, nested functions)", 2)
     chk.rule("R01.8", "closure cells are shared, not copied: the function handed back is built over fn.__closure__, never over cell_contents", 1)
 
     cls, H, stats = Q.templates(repo, chk.tier)
@@ -358,6 +359,28 @@ def run(repo, chk):
     from .shared import dictpile_obligations
     dictpile_obligations(repo, chk, "R01.3")
 
+    # ------------------------------------------------------------------ R01.11
+    from ..astq import facts_of
+    trf = repo.func("transform.transform")
+    ftr = facts_of(trf)
+    saves = [(n.targets[0].id, n.value) for t_, c_, n in ftr.items if isinstance(n, ast.Assign) and len(n.targets) == 1 and isinstance(n.targets[0], ast.Name)
+             and isinstance(n.value, ast.Call) and norm(n.value.func) == "glb.get" and n.value.args and norm(n.value.args[0]) in ("fname", "fn.__name__")]
+    execs = [n for t_, c_, n in ftr.items if isinstance(n, ast.Call) and is_name_(n.func, "exec")]
+    if not execs:
+        raise AnalysisError("transform.transform: the exec() that builds the instrumented function was not found")
+    ok_save = len(saves) == 1 and len(saves[0][1].args) == 2 and not (isinstance(saves[0][1].args[1], ast.Constant) and saves[0][1].args[1].value is None)
+    sv = saves[0][0] if saves else "<saved binding>"
+    dflt = norm(saves[0][1].args[1]) if saves and len(saves[0][1].args) == 2 else "None"
+    chk.ob("R01.11", "transform.transform:absence-of-the-name-is-remembered", ok_save, trf.where,
+           f"before exec() rebinds the function's name in its module, the previous binding is saved with a marker that distinguishes 'no such global' from a global that is None (saved as `{norm(saves[0][1]) if saves else 'nothing'}`)"
+           + ("" if ok_save else ": a name that was not a global (a method, a nested function) comes back as a global bound to None -- e.g. a method called `max` shadows the builtin in its module from then on"))
+    key_ = ("fname", "fn.__name__")
+    restores = ftr.find("glb[fname] = " + sv, when=[f"{sv} is not {dflt}"])
+    removes = [n for t_, c_, n in ftr.starting("glb.pop(fname") + ftr.starting("del glb[fname]") if f"{sv} is {dflt}" in c_ and isinstance(n, (ast.Call, ast.Delete))]
+    every = ftr.find("glb[fname] = " + sv)
+    ok_restore = ok_save and len(restores) == 1 and len(every) == 1 and len(removes) == 1
+    chk.ob("R01.11", "transform.transform:binding-restored-or-removed", ok_restore, trf.where,
+           "afterwards the name is bound to what it was bound to, or unbound again when there was no such global")
     # ------------------------------------------------------------------ R01.10
     def returns_nothing(fi, seen=()):
         """Every return of the function is bare / None / False, or hands on the result of a package function that returns nothing."""
